@@ -1,0 +1,30 @@
+//! Verification hooks (only compiled with the `verif-hooks` feature, off by default).
+//!
+//! A thread-local callback that the verification harness can install to be told when the
+//! current thread is about to acquire a lock. Without a callback `yield_point` is a no-op.
+
+use std::cell::RefCell;
+
+thread_local! {
+    static HOOK: RefCell<Option<Box<dyn FnMut(&'static str)>>> = const { RefCell::new(None) };
+}
+
+/// Installs (or removes, with `None`) the callback for the current thread
+pub fn set_thread_hook(hook: Option<Box<dyn FnMut(&'static str)>>) {
+    HOOK.with(|slot| *slot.borrow_mut() = hook);
+}
+
+/// Called by the library immediately before a lock acquisition
+pub fn yield_point(label: &'static str) {
+    HOOK.with(|slot| {
+        // take the callback out while it runs so that a re-entrant call is a no-op
+        let taken = slot.borrow_mut().take();
+        if let Some(mut callback) = taken {
+            callback(label);
+            let mut current = slot.borrow_mut();
+            if current.is_none() {
+                *current = Some(callback);
+            }
+        }
+    });
+}
